@@ -16,8 +16,9 @@ EXTENDS OciFilter, Json, IOUtils, TraceHdr
 VARIABLES l,      \* next trace line
           kind,   \* wrapper of the current scenario
           pol,    \* its policy table (checker: given; select: derived from the allow set)
-          allow
-tvars == <<kind, pol, allow>>
+          allow,
+          fail    \* >= 0: the backend's repository listing fails after that many items
+tvars == <<kind, pol, allow, fail>>
 
 Trace == ndJsonDeserialize(IOEnv.TRACE_FILE)
 ToSet(s) == {s[i] : i \in 1..Len(s)}
@@ -93,7 +94,7 @@ NamesOnly(s) == [i \in 1..Len(s) |-> s[i][1]]
 \* under the same scope.
 LazyOps == {"ListRepos", "ListTags", "Referrers"}
 Iters(e) == 1 + Len(e.again)
-AgainOK(e) == \A i \in 1..Len(e.again) : e.again[i].ok = e.ok /\ (e.ok => e.again[i].items = e.items)
+AgainOK(e) == \A i \in 1..Len(e.again) : e.again[i].ok = e.ok /\ ((e.ok \/ e.op = "ListRepos") => e.again[i].items = e.items)
 BackendCallsOK(e, want) ==
   IF e.op \in LazyOps /\ want # <<>>
     THEN Len(e.backend) \in 1..Iters(e) /\ \A i \in 1..Len(e.backend) : e.backend[i] = want[1]
@@ -108,7 +109,7 @@ StartPosOK(e) ==
                ELSE 2 * Cardinality({y \in ViewRepos : Less(Chars[y], Chars[e.start])}) + 1
 
 \* ------------------------------------------------------------------------
-TInit == Init /\ l = 2 /\ kind = "-" /\ pol = <<>> /\ allow = {}
+TInit == Init /\ l = 2 /\ kind = "-" /\ pol = <<>> /\ allow = {} /\ fail = -1
         /\ wres = NoRes /\ wpe = None /\ cons = <<>> /\ bcalls = <<>> /\ bscopes = <<>>
 
 ResetStep(e) ==
@@ -121,6 +122,7 @@ ResetStep(e) ==
   /\ res' = NoRes
   /\ wres' = NoRes /\ wpe' = None /\ cons' = <<>> /\ bcalls' = <<>> /\ bscopes' = <<>>
   /\ kind' = e.kind
+  /\ fail' = e.failafter
   \* a stack of Sub views is the one view under the composed prefix
   /\ e.kind = "sub" => ChainPrefix(e.chain) = Prefix
   /\ allow' = ToSet(e.allow)
@@ -132,10 +134,14 @@ BackendStep(e) ==
   /\ UNCHANGED <<wvars, tvars>>
 
 \* C12: a call through AccessChecker / Select
+Failing(e) == fail >= 0 /\ e.op = "ListRepos" /\ ~Rejected(e, pol)
 CheckedStep(e) ==
   LET sc == ScopeOf(e.scope) IN
-  /\ CheckedApply(e, pol, sc)
+  /\ IF Failing(e) THEN CheckedListFail(e, pol, sc, fail) /\ e.items = wres'.items
+                   ELSE CheckedApply(e, pol, sc)
   /\ Match(wres', e)
+  \* a name that comes with an error (consumers may look at it) is nothing the policy rejects
+  /\ \A i \in 1..Len(e.errwith) : ErrItemOK(e.errwith[i], pol)
   \* the policy was consulted exactly as predicted (Select's allow function sees the names only)
   \* (a listing consumed k times checks its items k times)
   /\ LET want == ConsOf(cons')
@@ -150,7 +156,9 @@ CheckedStep(e) ==
   /\ \A i \in 1..Len(e.bscopes) : ScopeOf(e.bscopes[i]) = sc
   \* the error is the policy's own (its identity, not just its code); no policy error otherwise
   /\ kind = "checker" => ToSet(e.pes) = (IF wpe' = None THEN {} ELSE {wpe'})
-  /\ C12Step(e, pol)
+  /\ IF Failing(e) THEN /\ RejectedNeverReachesBackendStep(e, pol) /\ ListingFilteredStep(e, pol)
+                         /\ ErrorIsPolicyErrorStep(e, pol) /\ BackendUnchanged
+                   ELSE C12Step(e, pol)
   /\ kind = "select" => SelectKindsOK(allow, Repos)
   /\ UNCHANGED tvars
 
@@ -174,7 +182,18 @@ SubStep(e) ==
   /\ \A i \in 1..Len(e.bscopes) : ScopesRewrittenOne(sc, ScopeOf(e.bscopes[i]))
   /\ Len(e.bscopes) = NIface(e.backend)
   /\ C13Step(e, sc)
+  /\ \A i \in 1..Len(e.errwith) : e.errwith[i] = "" \/ e.errwith[i] \in ViewRepos
   /\ UNCHANGED tvars
+
+\* One call of the concurrent stage: several goroutines call through ONE Sub view at the same
+\* time, each with a scope of its own.  The clause "scopes are rewritten for every method" is a
+\* statement about each call, whatever else is in flight: the backend saw this call's own scope,
+\* rewritten, and this call's own name, prefixed.  (Events are the distinct observations.)
+ConcStep(e) ==
+  /\ kind = "sub"
+  /\ ScopesRewrittenOne(ScopeOf(e.scope), ScopeOf(e.bscope))
+  /\ e.br = (IF e.m = "ListRepos" THEN "" ELSE SubName(e.r))
+  /\ UNCHANGED <<fvars, tvars>>
 
 TNext ==
   /\ l <= Len(Trace)
@@ -184,6 +203,7 @@ TNext ==
        [] e.op = "snap" -> SnapMatch(e) /\ UNCHANGED <<fvars, tvars>>
        [] e.op = "skip" -> UNCHANGED <<fvars, tvars>>
        [] e.op = "panic" -> FALSE
+       [] e.op = "cscope" -> ConcStep(e)
        [] OTHER -> IF e.via = "backend" THEN BackendStep(e)
                    ELSE IF kind = "sub" THEN SubStep(e) ELSE CheckedStep(e)
 TSpec == TInit /\ [][TNext]_<<fvars, l, tvars>>
